@@ -10,7 +10,7 @@
    pattern read as an expression under s rebuilds v" is NOT proved for arbitrary
    nesting; it is what the correspondence run checks against the implementation
    on the pattern x value product (matching, near-miss and wrong-kind values). *)
-From Arrai Require Import Base.Val Spec.SetAlg Eval.Interp Proofs.ValOrder Proofs.PatternP Proofs.PatArrP.
+From Arrai Require Import Base.Val Spec.SetAlg Eval.Interp Proofs.ValOrder Proofs.PatternP Proofs.PatArrP Proofs.PatTupP.
 
 Theorem C09_repeated_names_must_agree :
   forall t s r x a w, env_matched_update s t = Some r -> env_get x s = Some (D a) -> In (x, w) t -> w = D a.
@@ -98,3 +98,37 @@ Example C09_flat_array_example :
   exists sc, bind_pat 5 [] (PArr (flat_items [LVar [120]; LLit (vint 2); LWild; LVar [120]]))
                (D (VSet (vseq_from n_item 0 [vint 1; vint 2; vint 3; vint 1]))) = Ok sc.
 Proof. eexists. vm_compute. reflexivity. Qed.
+
+(* [p1, .., pk, ...r, q1, .., qm]: the array splits as prefix ++ middle ++ suffix, the prefix and suffix
+   items are bound to their components, and r is bound to exactly the middle as a zero-based array *)
+Theorem C09_rest_captures_exactly_the_remainder :
+  forall fuel rho pre r suf v sc,
+    bind_pat (S (S (S fuel))) rho (PArr (flat_items pre ++ PExtra (Some r) :: flat_items suf)) (D v) = Ok sc ->
+    exists xs a m b, dense_array v = Some xs /\ xs = a ++ m ++ b /\
+      Forall2 (leaf_ok sc) pre a /\ Forall2 (leaf_ok sc) suf b /\ env_get r sc = Some (D (arr_of m)).
+Proof. exact rest_array_pattern_sound. Qed.
+Print Assumptions C09_rest_captures_exactly_the_remainder.
+
+Example C09_rest_example :
+  exists sc, bind_pat 5 [] (PArr (flat_items [LVar [97]] ++ PExtra (Some [114]) :: flat_items [LVar [98]]))
+               (D (VSet (vseq_from n_item 0 [vint 1; vint 2; vint 3; vint 4]))) = Ok sc
+             /\ env_get [114] sc = Some (D (arr_of [vint 2; vint 3])).
+Proof. eexists. vm_compute. split; reflexivity. Qed.
+
+(* tuple patterns of names, _ and literals: every named attribute is found and its item is bound to the
+   attribute's value; the tuple has no attribute the pattern does not name *)
+Theorem C09_flat_tuple_pattern_binds_attributes :
+  forall fuel rho nls v sc,
+    bind_pat (S (S (S fuel))) rho (PTup (flat_attrs nls)) (D v) = Ok sc ->
+    exists tv, v = VTup tv /\
+      Forall (fun nl => exists x, tget (fst nl) tv = Some x /\ leaf_ok sc (snd nl) x) nls /\
+      remaining_after (map fst nls) tv = [].
+Proof. exact flat_tuple_pattern_sound. Qed.
+Print Assumptions C09_flat_tuple_pattern_binds_attributes.
+
+Theorem C09_flat_tuple_pattern_no_other_attribute :
+  forall fuel rho nls v sc,
+    bind_pat (S (S (S fuel))) rho (PTup (flat_attrs nls)) (D v) = Ok sc ->
+    exists tv, v = VTup tv /\ forall m x, In (m, x) tv -> exists n, In n (map fst nls) /\ name_cmp m n = Eq.
+Proof. exact flat_tuple_pattern_no_other_attribute. Qed.
+Print Assumptions C09_flat_tuple_pattern_no_other_attribute.
